@@ -504,7 +504,7 @@ C_KEYWORDS = {'auto', 'break', 'case', 'char', 'const', 'continue', 'default', '
 
 # libc entry points that CBMC gives built-in meanings we do not want (its abort() is assume(false) and would hide aborts)
 CLASHING_EXTERNALS = {'__assert_fail': 'vf_assert_fail', 'abort': 'vf_abort_call', 'exit': 'vf_exit_call', '_exit': 'vf_exit_call',
-                      'memcpy': 'vf_memcpy', 'memmove': 'vf_memmove', 'memset': 'vf_memset'}
+                      'memcpy': 'vf_libc_memcpy', 'memmove': 'vf_libc_memmove', 'memset': 'vf_libc_memset'}
 
 def sanitize(name):
     s = re.sub(r'[^A-Za-z0-9_]', '_', name)
@@ -1241,6 +1241,10 @@ class FnTranslator(FnEmitter):
         while cv.kind == 'cexpr' and cv.v == 'bitcast': cv = cv.ops[0]
         if cv.kind == 'global': direct = cv.v
         name = direct[1:] if direct else None
+        if name == '__vf_check_readable':
+            out.append('VF_CHECK_READABLE(%s, %s);' % (self.val(args[0]), self.val(args[1])))
+            if op == 'invoke': out.append(self.edge(normal))
+            return
         if name == '__vf_model_bound':
             out.append('VF_MODEL_BOUND("MODEL-BOUND container capacity exceeded (raise MINISTL_MINCAP)");')
             if op == 'invoke': out.append(self.edge(normal))
@@ -1444,6 +1448,7 @@ u64 vf_bswap16(u64); u64 vf_bswap32(u64); u64 vf_bswap64(u64);
 #define VF_ASSERT(c, msg) __CPROVER_assert((c), msg)
 #endif
 #define VF_MODEL_BOUND(msg) do { __CPROVER_assert(0, msg); __CPROVER_assume(0); } while (0)
+#define VF_CHECK_READABLE(p, n) do { u64 n_ = (n); if (n_ != 0) { __CPROVER_assert(n_ < (1UL << 40) && __CPROVER_r_ok((p), n_), "UB: iterator range handed to a std container is not readable memory (out of bounds or reversed)"); __CPROVER_assume(n_ < (1UL << 40) && __CPROVER_r_ok((p), n_)); } } while (0)
 #ifdef VF_WITNESS
 #define VF_WITNESS(msg) __CPROVER_assert(0, msg)
 #else
@@ -1454,6 +1459,7 @@ void vf_assert_native(int c, const char *label);
 #define VF_ASSERT(c, msg) vf_assert_native((c), msg)
 #define VF_WITNESS(msg) ((void)0)
 #define VF_MODEL_BOUND(msg) ((void)0)
+#define VF_CHECK_READABLE(p, n) ((void)0)
 #endif
 '''
 
